@@ -81,8 +81,11 @@ def solver_selftest():
         e = t["ev"][sweeps(t)[0]]
         e["permref"] = []
         e["perm"][0], e["perm"][-1] = e["perm"][-1], e["perm"][0]
+        for pos_, st_ in enumerate(e["perm"]):          # the harness derives the inverse from the logged permutation
+            e["pinv"][st_ - 1] = pos_ + 1
     add(1, "SAVI: first and last entry of a permutation swapped", "Gauss-Seidel", swap_perm)
     add(1, "SAVI: permutation with a repeated state", "permutation", lambda t: t["ev"][sweeps(t)[0]]["perm"].__setitem__(0, t["ev"][sweeps(t)[0]]["perm"][1]))
+    add(1, "SAVI: inverse permutation not the inverse (machinery)", "MACHINERY", lambda t: t["ev"][sweeps(t)[0]]["pinv"].reverse())
     add(1, "SAVI: twin permutation differs", "reproducible", lambda t: t["ev"][sweeps(t)[1]]["permref"].reverse())
     add(1, "SAVI: layout claims one batch per device", "Gauss-Seidel", lambda t: t["layout"].update({"nb": 1, "bs": t["m"]["ns"]}))
     add(2, "RVI: one component shifted (not a common constant)", "common constant", lambda t: t["ev"][sweeps(t)[2]]["v"].__setitem__(0, t["ev"][sweeps(t)[2]]["v"][0] + 1))
